@@ -5,7 +5,7 @@
    openfile_depth) and the reference's budget (spec_max_links) are the
    constants goextract read from those files on this run. *)
 From Coq Require Import Sorting.Sorted.
-From Apko Require Import Base.Prelude Model.MemFS Spec.FsSpec Model.DirFS Proofs.FsDir Proofs.FsProofs Proofs.FsLaws Proofs.FsWf Proofs.FsAgree Proofs.FsReach Proofs.FsTame Proofs.FsTameOps Proofs.FsTameReach Generated.FsConsts.
+From Apko Require Import Base.Prelude Model.MemFS Spec.FsSpec Model.DirFS Proofs.FsDir Proofs.FsProofs Proofs.FsLaws Proofs.FsWf Proofs.FsAgree Proofs.FsReach Proofs.FsTame Proofs.FsTameOps Proofs.FsTameReach Proofs.FsWeights Generated.FsConsts.
 Open Scope string_scope. Open Scope list_scope.
 
 (* the limits the theorems below are about: both files say the same, and it is
@@ -368,6 +368,76 @@ Example c17_refines_syntactic_nonvacuous : forall b,
       Mkdir ["m"; "d"] 493%N; Remove ["m"; "r"]; ListXattrs ["k"] ] = true /\
   snd (model_step b s (ReadFile ["k"])) = OBytes [1; 2; 3]%N.
 Proof. intro b; destruct b; vm_compute; repeat split; reflexivity. Qed.
+
+(* ---- the weight certificate along sequences; the refinement for sequences given by syntax ----
+   The certificate was a premise on the state each operation meets.  For a weight
+   [w] chosen in advance it is an invariant of the code's steps — inside the
+   envelope or not — as soon as every Symlink operation respects it itself
+   ([wt_op w], a boolean on the operation: filepath.Base of the link's path weighs
+   more than the whole target).  No other step enters a link under a name: fresh
+   directories / files / devices are not links, Link enters the node getNode
+   returned, which is never a link, and no step changes the kind or target of an
+   existing inode. *)
+Theorem c17_weights_invariant :
+  (forall b s o w, wf s -> wt_op w o = true -> weights_ok w (heap s) = true ->
+     weights_ok w (heap (fst (model_step b s o))) = true) /\
+  (forall b w ops, forallb (wt_op w) ops = true -> weights_ok w (heap (reach b ops)) = true).
+Proof. split; [exact model_step_weights | exact reach_weights]. Qed.
+Print Assumptions c17_weights_invariant.
+
+(* EVERY finite sequence of operations from the empty filesystem whose operations
+   lie in the syntactic class [op_in_class b w] — a condition on each operation's
+   text alone: Symlink targets tame and lighter than the name they are entered
+   under, openFile/MkdirAll paths of weight at most the budget, not MkdirAll(".")
+   on tarfs; NO hypothesis on any intermediate state:
+   (1) at no step, not even after the sequence went through recorded corners,
+       is the symbolic-link clause the first clause of the envelope to fail;
+   (2) the whole run is the reference's run (all results, final state), or the
+       sequence agrees with the reference up to a first step that is one of the
+       OTHER recorded corners (each with its own tag and refutation below). *)
+Theorem c17_refines_sequences : forall b w ops, forallb (op_in_class b w) ops = true ->
+  (forall pre o post, ops = pre ++ o :: post -> corner b (reach b pre) o <> Some t_link) /\
+  (model_run b init_st ops = spec_run init_st ops \/
+   exists pre o post tag, ops = pre ++ o :: post /\
+     model_run b init_st pre = spec_run init_st pre /\
+     corner b (reach b pre) o = Some tag /\ tag <> t_link).
+Proof. exact refines_sequences. Qed.
+Print Assumptions c17_refines_sequences.
+
+(* the step form, after ANY prefix of tame, weight-respecting operations *)
+Theorem c17_refines_class_step : forall b w pre o,
+  forallb tame_op pre = true -> forallb (wt_op w) pre = true ->
+  op_weight w o <= spec_max_links -> dot_ok b o = true ->
+  let s := reach b pre in
+  (corner b s o = None /\ model_step b s o = spec_step s o) \/
+  (exists tag, corner b s o = Some tag /\ tag <> t_link).
+Proof. exact refines_class_step. Qed.
+Print Assumptions c17_refines_class_step.
+
+(* non-vacuity: a weight written down in advance; links through links, openFile and
+   MkdirAll through them; the sequence is in the class and runs as the reference on
+   both backends; with a Remove of a non-empty directory in the middle the class
+   still holds and the first departure is that corner, not the link clause *)
+Definition c17_seq_w (nm : string) : nat :=
+  if String.eqb nm "l" then 1 else if String.eqb nm "r" then 1 else if String.eqb nm "m" then 2
+  else if String.eqb nm "k" then 4 else 0.
+Definition c17_seq_demo : list op :=
+  c17_tame_demo ++
+  [ ReadFile ["k"]; ReadFile ["m"; "r"]; OpenFile ["m"; "new"] (mkFl ARdWr false true false false) 420%N;
+    MkdirAll ["m"; "x"; "y"] 493%N; Stat ["k"]; Lstat ["a"; "b"; "f"]; Link ["k"] ["a"; "hl"]; Readlink ["k"];
+    Mkdir ["m"; "d"] 493%N; Write 0 [7]%N; Remove ["m"; "r"]; ListXattrs ["a"; "hl"]; ReadFile ["k"] ].
+Example c17_refines_sequences_nonvacuous : forall b,
+  forallb (op_in_class b c17_seq_w) c17_seq_demo = true /\
+  model_run b init_st c17_seq_demo = spec_run init_st c17_seq_demo /\
+  nth 6 (rev (snd (model_run b init_st c17_seq_demo))) OOk = OOk /\
+  nth 0 (rev (snd (model_run b init_st c17_seq_demo))) OOk = OErr ENotExist /\
+  let ops2 := c17_tame_demo ++ [Remove ["a"]; Stat ["k"]; MkdirAll ["m"; "z"] 493%N] in
+  forallb (op_in_class b c17_seq_w) ops2 = true /\
+  corner b (reach b c17_tame_demo) (Remove ["a"]) = Some "remove-nonempty-directory" /\
+  model_run b init_st ops2 <> spec_run init_st ops2.
+Proof.
+  intro b; destruct b; vm_compute; repeat split; try reflexivity; intro H; discriminate H.
+Qed.
 
 (* the weight premise cannot be dropped for openFile / MkdirAll although it is
    not needed for getNode: m40 -> ... -> m01 -> d is a chain of spec_max_links
